@@ -53,6 +53,12 @@ fn observe(a: &ActorRef<PMsg>, log: &Log, who: &str, graceful: bool) -> Vec<Stri
 }
 
 fn body(cause: Cause) -> vsched::Body {
+    body_x(cause, false)
+}
+
+/// `twin`: the second concurrent waiter uses the same closing API as the first (two kill_and_wait / stop_and_wait
+/// / drain_and_wait callers at once: the one whose request comes second must wait all the same)
+fn body_x(cause: Cause, twin: bool) -> vsched::Body {
     Arc::new(move || {
         Box::pin(async move {
             let log = Log::default();
@@ -125,12 +131,13 @@ fn body(cause: Cause) -> vsched::Body {
                     Cause::Drain => (a3.drain_and_wait(None).await.is_ok(), "drain_and_wait"),
                     Cause::Abort(_) | Cause::Err | Cause::Panic => (a3.wait(Some(Duration::from_secs(1000))).await.is_ok(), "wait(Some(T))"),
                 };
-                mk_marker(&s3, 902);
                 if ok {
+                    mk_marker(&s3, 902);
                     // (never hold a harness lock across a scheduling point)
                     let v = observe(&a3, &l3, &format!("W2 {what}"), graceful);
                     b3.lock().unwrap().extend(v);
-                } else {
+                } else if !(twin && matches!(cause, Cause::Stop | Cause::Drain)) {
+                    // (with a twin, the one whose stop / drain request comes second may be refused)
                     b3.lock().unwrap().push(format!("W2 {what} did not return Ok"));
                 }
             });
@@ -138,9 +145,18 @@ fn body(cause: Cause) -> vsched::Body {
             // "registered for the wake-up" at the same time)
             let (a5, l5, b5) = (a.clone(), log.clone(), bad.clone());
             let w2b = vsched::spawn("waiter", async move {
-                let r = a5.wait(None).await;
-                let mut v = observe(&a5, &l5, "W2b wait(None)", graceful);
-                if r.is_err() {
+                let r = match (twin, cause) {
+                    (true, Cause::Stop) => a5.stop_and_wait(None, None).await.map_err(|_| ()),
+                    (true, Cause::Kill) => a5.kill_and_wait(None).await.map_err(|_| ()),
+                    (true, Cause::Drain) => a5.drain_and_wait(None).await.map_err(|_| ()),
+                    _ => a5.wait(None).await.map_err(|_| ()),
+                };
+                // (a second stop_and_wait / drain_and_wait may be refused with an error because the request was
+                // made already: only an Ok promises anything)
+                let mut v = Vec::new();
+                if r.is_ok() {
+                    v = observe(&a5, &l5, if twin { "W2b (second closing wait)" } else { "W2b wait(None)" }, graceful);
+                } else if !twin {
                     v.push("W2b wait(None) returned a timeout".into());
                 }
                 b5.lock().unwrap().extend(v);
@@ -481,6 +497,9 @@ pub fn plan(tier: &str) -> Plan {
     let bound = if thorough { 3 } else { 2 };
     for cause in [Cause::Stop, Cause::Kill, Cause::Drain, Cause::Err, Cause::Panic] {
         units.push(Unit::explore_split(Job::new(format!("exit/{cause:?}"), cfg.clone(), Some(bound), body(cause)), if thorough { 16 } else { 8 }));
+    }
+    for cause in [Cause::Kill, Cause::Stop, Cause::Drain] {
+        units.push(Unit::explore_split(Job::new(format!("exit/{cause:?}+twin-closer"), cfg.clone(), Some(bound), body_x(cause, true)), if thorough { 16 } else { 8 }));
     }
     for k in if thorough { vec![2usize, 3, 4, 5] } else { vec![3usize] } {
         let mut c = cfg.clone();
